@@ -23,15 +23,15 @@ RULE = (
     "data/nested entity class) with a generated instance, preceded by an instance of its __header_schema__ (request "
     "header key/version filled from the payload class as in docs/pages/usage.rst); 0-32 leading and trailing junk "
     "bytes; one sink kind (BytesIO, write-only sink, real asyncio.StreamWriter over a recording transport, non-seekable "
-    "BufferedWriter) and one source kind (BytesIO, read-only exact-size source, BufferedReader over a non-seekable raw "
-    "stream) per case. Oracle: (1) the bytes on the chosen sink equal lead + concatenation of each entity encoded alone "
+    "BufferedWriter, unbuffered file object of a real OS socket pair) and one source kind (BytesIO, read-only exact-size "
+    "source, BufferedReader over a non-seekable raw stream with short reads, buffered file object of a real OS socket) per case. Oracle: (1) the bytes on the chosen sink equal lead + concatenation of each entity encoded alone "
     "into a fresh BytesIO + trail; (2) reading header_1, payload_1, ... in order from one source returns the original "
     "values and stops exactly at len(lead)+sum; (3) the write-only sink saw only write(bytes-like) calls and the "
     "read-only source only read(int>=0) calls whose sizes sum to the bytes consumed; any other stream access is a "
     "violation. Non-trivial = >=2 messages of different classes with non-empty lead and trail; distinct by case hash."
 )
-SINKS = ["bytesio", "writeonly", "streamwriter", "buffered_nonseekable"]
-SOURCES = ["bytesio", "readonly", "buffered_nonseekable"]
+SINKS = ["bytesio", "writeonly", "streamwriter", "buffered_nonseekable", "socket"]
+SOURCES = ["bytesio", "readonly", "buffered_nonseekable", "socket"]
 
 
 class _RawNoSeek(io.RawIOBase):
@@ -135,6 +135,7 @@ def check(case) -> list[tuple[str, str]]:
     # ---- writing through the drawn sink kind
     kind = case["sink"]
     loop = None
+    socks: list = []
     try:
         if kind == "bytesio":
             sink = io.BytesIO()
@@ -145,6 +146,26 @@ def check(case) -> list[tuple[str, str]]:
         elif kind == "streamwriter":
             sink, transport, loop = make_stream_writer()
             getv = transport.value
+        elif kind == "socket":
+            # a real OS socket pair: the sink is the unbuffered write side (socket.makefile("wb", buffering=0))
+            import socket
+
+            a, b_sock = socket.socketpair()
+            socks.extend([a, b_sock])
+            if len(expected) > 60000:
+                sink = io.BytesIO()  # would not fit the kernel buffer without a concurrent reader
+                getv = sink.getvalue
+            else:
+                sink = a.makefile("wb", buffering=0)
+
+                def getv():
+                    a.shutdown(socket.SHUT_WR)
+                    chunks = []
+                    while True:
+                        c = b_sock.recv(65536)
+                        if not c:
+                            return b"".join(chunks)
+                        chunks.append(c)
         else:
             raw = _RawNoSeek()
             sink = io.BufferedWriter(raw, buffer_size=16)
@@ -161,17 +182,38 @@ def check(case) -> list[tuple[str, str]]:
     finally:
         if loop is not None:
             loop.close()
+        for s_ in socks:
+            s_.close()
     if got != expected:
         out.append((f"sink-bytes-differ:{kind}", f"sink kind {kind}: stream has {got.hex()[:300]}\n expected lead + parts + trail {expected.hex()[:300]}"))
     # ---- reading back through the drawn source kind
     skind = case["source"]
     stream = expected
+    rsocks: list = []
     if skind == "bytesio":
         src = io.BytesIO(stream)
         pos = src.tell
     elif skind == "readonly":
         src = ReadOnlySource(stream)
         pos = lambda: src.consumed  # noqa: E731
+    elif skind == "socket" and len(stream) <= 60000:
+        import socket
+
+        ra, rb = socket.socketpair()
+        ra.sendall(stream)
+        ra.shutdown(socket.SHUT_WR)
+        fobj = rb.makefile("rb")  # buffered reader over a real socket
+        consumed = {"n": 0}
+
+        class _CountingSock:
+            def read(self, n):
+                data = fobj.read(n)
+                consumed["n"] += len(data)
+                return data
+
+        src = _CountingSock()
+        pos = lambda: consumed["n"]  # noqa: E731
+        rsocks = [ra, rb, fobj]
     else:
         raw_r = _RawNoSeek(stream)
         src = io.BufferedReader(raw_r, buffer_size=16)
@@ -210,6 +252,12 @@ def check(case) -> list[tuple[str, str]]:
         out.append((f"source-protocol:{str(e).split('(')[0].split(' ')[0]}", f"source kind {skind}: {e}"))
     except Exception as e:
         out.append((f"read-raised:{skind}:{K.exc_signature(e)}", f"source kind {skind}: {e!r}"))
+    finally:
+        for s_ in rsocks:
+            try:
+                s_.close()
+            except Exception:
+                pass
     return out
 
 
